@@ -976,3 +976,43 @@ def c2model_term(cqm):
         cons.append(f"(mkC2con {clabel(lab)} {expr_file_term(lhs, pv)} {cbytes(t(con.rhs).tobytes())} "
                     f"{cbytes(con.sense.value.encode('ascii'))} {'true' if lhs.is_discrete() else 'false'} {soft})")
     return f"(mkC2model {vi} {clabels(None if is_range(pv) else pv)} {expr_file_term(cqm.objective, pv)} {clist(cons)})"
+
+
+def npz_members(dqm_bytes):
+    """the .npy members of the BIAS section of a DQM file: {name: bytes} in directory order"""
+    i = dqm_bytes.index(b'BIAS')
+    n = int.from_bytes(dqm_bytes[i + 4:i + 8], 'little')
+    with zipfile.ZipFile(io.BytesIO(dqm_bytes[i + 8:i + 8 + n])) as zf:
+        return {nm: zf.read(nm) for nm in zf.namelist()}
+
+
+def dqm_vectors(m):
+    """case_starts, linear biases, (row, col, bias) with row > col, straight from the public accessors of a DQM"""
+    vs = list(m.variables)
+    starts, tot = [], 0
+    for v in vs:
+        starts.append(tot)
+        tot += int(m.num_cases(v))
+    lin = [x for v in vs for x in m.get_linear(v)]
+    quad = []
+    for i, u in enumerate(vs):
+        for j in range(i):
+            try:
+                q = m.get_quadratic(u, vs[j])
+            except Exception:
+                continue
+            for (a, b), x in q.items():
+                quad.append((starts[i] + int(a), starts[j] + int(b), x))
+    return starts, lin, quad
+
+
+def dqmvec_term(m, with_offset=True):
+    t = np.float64
+    starts, lin, quad = dqm_vectors(m)
+    q = clist([f"({cN(r)}, ({cN(c)}, {cbytes(t(x).tobytes())}))" for r, c, x in quad])
+    off = f"(Some {cbytes(t(m.offset).tobytes())})" if with_offset else "None"
+    return f"(mkDqmvec {clist([cN(x) for x in starts])} {clist([cbytes(t(x).tobytes()) for x in lin])} {q} {off})"
+
+
+def npz_archive_term(members):
+    return clist([f"({cbytes(n.encode('ascii'))}, {cbytes(b)})" for n, b in members.items()])
